@@ -4,7 +4,7 @@
    (2) an action accepted by MSPot's single-store executor is accepted by Exec.exec with the declared RAM/DISK budgets. *)
 From Coq Require Import ZArith List Lia Bool.
 Require Import Actions BinomDef Binom2 NAdvance NAdv Multistage Exec Sched ExecFacts RunFacts.
-Require MSPot Inst.
+Require MSPot Inst MSTerm.
 Import ListNotations.
 Open Scope Z_scope.
 
@@ -559,6 +559,46 @@ Proof.
     - repeat split; reflexivity. }
   pose proof (run_nexts_fl pms J (flag_rule is_endrev) (fun s m HJ Hm => conj (J_step s m HJ Hm) (J_flags s m HJ)) k _ _ HJ0 eq_refl) as H.
   destruct (run_ops pms (msched init false) mon0 (repeat Next k)) as [[s' m'] ls]. destruct H as (_ & _ & _ & H). exact H.
+Qed.
+(* C02 / C09, termination: the measure of MSTerm decreases along the extracted run, so the schedule is exhausted after at
+   most 6 * TC N S + 6 requests (and stays so) *)
+Definition muS (sch : sched) : Z := match ob sch with OMulti _ s _ _ => MSTerm.mu (Inst.TC tj) N S_ (toP s) | _ => 0 end.
+Lemma muS_nonneg sch m : J sch m -> 0 <= muS sch.
+Proof.
+  intros HJ. assert (H : forall s stt, 0 <= muS (msched s stt)).
+  { intros s stt. unfold muS, msched. cbn [ob]. unfold MSTerm.mu.
+    pose proof (MSTerm.Phi_nonneg (Inst.TC tj) (Inst.TC_nonneg tj) N S_ (toP s)).
+    assert (0 <= MSTerm.rank (MSPot.pcv (toP s))) by (destruct (MSPot.pcv (toP s)); cbn; lia). lia. }
+  inversion HJ; subst; apply H.
+Qed.
+Lemma muS_dec sch m : J sch m -> is_exhausted sch = false -> muS (fst (Sched.next sch)) < muS sch.
+Proof.
+  intros HJ He. inversion HJ as [s stt m0 x Hd Hf Hm HI HR Hfw Hex|s stt m0 Hpc Hexd Hm Htot]; subst; clear HJ.
+  - destruct (next_agrees s x HI Hd Hf) as (s' & a & Hnext & Hres & _).
+    pose proof (MSTerm.mu_decreases (Inst.advC tj) (Inst.advC_range tj) (Inst.advC_one tj) (Inst.TC tj) (Inst.TC_1 tj) (Inst.TC_rec tj) (Inst.TC_nonneg tj)
+                  N S_ HN lb lb_cp (toP s) x HI) as Hmu.
+    rewrite Hres in Hmu. unfold Sched.next, msched, muS. cbn [ob]. rewrite Hnext. cbn [fst ob]. lia.
+  - unfold is_exhausted, msched in He. cbn [ob] in He. congruence.
+Qed.
+Lemma exh_stays sch m : J sch m -> is_exhausted sch = true -> is_exhausted (fst (Sched.next sch)) = true.
+Proof.
+  intros HJ He. inversion HJ as [s stt m0 x Hd Hf Hm HI HR Hfw Hex|s stt m0 Hpc Hexd Hm Htot]; subst; clear HJ.
+  - unfold is_exhausted, msched in He. cbn [ob] in He. congruence.
+  - unfold Sched.next, msched. cbn [ob]. unfold Multistage.next.
+    assert (Hr : Multistage.resume 3 c s = (s, StopIteration)) by (destruct s as [q n r sn e]; cbn [pcv] in Hpc; destruct Hpc as [-> | ->]; reflexivity).
+    rewrite Hr. cbn [fst snd is_exhausted ob mk exhausted]. exact Hexd.
+Qed.
+Theorem multistage_cfg_terminates : forall k, 6 * Inst.TC tj N S_ < Z.of_nat k ->
+  is_exhausted (fst (fst (run_ops pms (msched init false) mon0 (repeat Next k)))) = true.
+Proof.
+  intros k Hk.
+  assert (HJ0 : J (msched init false) mon0).
+  { apply (Jrun init false mon0 (MSPot.init_x)); try discriminate; try reflexivity.
+    - pose proof (MSPot.inv_init (Inst.TC tj) N S_ HN) as H0. exact (H0 HS S_nonneg lb).
+    - repeat split; reflexivity. }
+  apply (run_nexts_fin pms J muS is_exhausted J_step muS_nonneg muS_dec exh_stays k _ _ HJ0 eq_refl).
+  right. unfold muS, msched. cbn [ob]. unfold MSTerm.mu, MSPot.Phi. cbn [toP init mk pcv pcP MSPot.pcv MSPot.n_ MSPot.snaps MSPot.segs MSTerm.rank n_ snaps].
+  unfold MSPot.free, MSPot.len. change (MSPot.snaps (toP init)) with (@nil Z). cbn [length]. replace (N - 0) with N by lia. replace (S_ - Z.of_nat 0) with S_ by lia. lia.
 Qed.
 End BRIDGE.
 Print Assumptions multistage_cfg_run.
